@@ -4,8 +4,8 @@ Space: class sets C0..Cn-1 (each: field f, static field s, method m with a gener
 interaction matrix -- for every ordered pair (i, j): none / Ci.m calls Cj.m and Cj.t / reads Cj.f and writes Cj.s /
 new-instance + const-class Cj / loads the string Cj also loads / all of these; every class also calls Lext/E;->x(I)V and
 instantiates itself (a self reference, which must stay ignored whatever the processing order).
-quick: the full-interaction 4-class model x ALL 75 ordered set partitions into 1..4 DEX files, and 3 classes x all 2^6
-{none, all} matrices x all 13 ordered partitions.  thorough: additionally 3 classes x all 5^6 single-interaction matrices x 13
+quick: the full-interaction 4-class model x ALL 75 ordered set partitions into 1..4 DEX files x every class_defs order inside
+each file (192 histories), and 3 classes x all 2^6 {none, all} matrices x all 13 ordered partitions x class_defs orders (24).  thorough: additionally 3 classes x all 5^6 single-interaction matrices x 13
 and 4 classes x all 2^12 {none, all} matrices x 75.
 History = the sequence of Analysis.add calls (one per block of the ordered partition), then create_xref() once.
 Oracles: (a) after every add the name-keyed sets of classes / methods / fields / strings equal what the model says for the classes
@@ -25,7 +25,7 @@ RULE = ("every ordered set partition (= DEX split + add order) of 3- and 4-class
         "(matrix x ordered partition = enumeration index)")
 ASSUMPTIONS = ["class names are distinct across the DEX files (the statement's premise)",
                "iteration order of classes / strings follows the add order and is not part of the statement: dumps are name-keyed and sorted",
-               "classes inside one DEX file are in index order; the add order of the files is the order of the blocks",
+               "the add order of the files is the order of the blocks; the order inside a block is the class_defs order of that file",
                "trusted: gen/dexgen.py, gen/dexread.py, gen/dalvik.py, ref/xref.py (model- and byte-derived references compared once per matrix)"]
 MANIFEST = {
     "engine": "E3-history-bfs",
@@ -41,7 +41,7 @@ MANIFEST = {
 }
 
 FULL = 5
-CH4 = 5          # partitions per shard for the full 4-class model
+CH4 = 12         # histories per shard for the full 4-class model (192 = ordered partitions x class_defs orders)
 CHM3 = 2         # matrices per shard, 3 classes {none, all}
 CHT3 = 125       # matrices per shard, 3 classes x 5^6 (thorough)
 CHT4 = 32        # matrices per shard, 4 classes x 2^12 (thorough)
@@ -50,7 +50,11 @@ CHT4 = 32        # matrices per shard, 4 classes x 2^12 (thorough)
 def space(ctx):
     from gen import xrefmodels as X
     s = {"interactions": X.INTERACTIONS,
-         "quick": {"4 classes, full interaction": "75 ordered partitions", "3 classes x {none,all}^6": "64 matrices x 13 ordered partitions"},
+         "quick": {"4 classes, full interaction": "75 ordered partitions x every class_defs order inside each DEX = 192 histories",
+                   "3 classes x {none,all}^6": "64 matrices x (13 ordered partitions x class_defs orders = 24 histories)"},
+         "decoy_history": "before the first analysis of a process and every 4th one a fixed other program using the same class names LC0;..LC3; "
+                          "is analysed and queried; in between, the previous history (same names, other bodies) is the decoy",
+         "alternative_entry_points_in_dump": ["find_methods", "find_fields", "get_method_analysis_by_name"],
          "ordered_partitions": {"3": len(X.ordered_partitions(3)), "4": len(X.ordered_partitions(4))}}
     if ctx.thorough:
         s["thorough"] = {"3 classes x {none,call,field,class-use,string}^6": "15625 matrices x 13",
@@ -61,8 +65,8 @@ def space(ctx):
 def shards(ctx):
     import androguard.core.analysis.analysis  # noqa  (warm the import before the pool forks)
     C.freeze_heap()
-    s = [("m3", (0, FULL), lo, lo + CHM3) for lo in range(0, 64, CHM3)]      # simplest first
-    s += [("full4", lo, lo + CH4) for lo in range(0, 75, CH4)]
+    s = [("m3o", (0, FULL), lo, lo + CHM3) for lo in range(0, 64, CHM3)]      # simplest first
+    s += [("full4", lo, lo + CH4) for lo in range(0, 192, CH4)]
     if ctx.thorough:
         s += [("m3", (0, 1, 2, 3, 4), lo, lo + CHT3) for lo in range(0, 5 ** 6, CHT3)]
         s += [("m4", (0, FULL), lo, lo + CHT4) for lo in range(0, 2 ** 12, CHT4)]
@@ -109,7 +113,7 @@ def run_history(n, matrix, blocks, acc=None):
                              % (k + 1, sorted(added), rel, [x for x in got[rel] if x not in want[rel]][:6],
                                 [x for x in want[rel] if x not in got[rel]][:6])))
 
-    run = C.Run(raws, after_add=after_add)
+    run = C.Run(raws, after_add=after_add, decoy="c16")
     d = C.dump(run)
     if acc is not None:
         acc.state(("final", n, matrix, repr(d)))
@@ -161,11 +165,12 @@ def run_shard(ctx, shard):
     if kind == "full4":
         n = 4
         mats = [tuple(tuple(0 if i == j else FULL for j in range(4)) for i in range(4))]
-        parts = X.ordered_partitions(4)[shard[1]:shard[2]]
+        parts = X.ordered_partitions_with_class_order(4)[shard[1]:shard[2]]
     else:
-        n = 3 if kind == "m3" else 4
+        n = 4 if kind == "m4" else 3
         mats = [_matrix_at(n, shard[1], k) for k in range(shard[2], shard[3])]
-        parts = X.ordered_partitions(n)
+        # quick families: every class_defs order inside every DEX file as well; thorough-only families: blocks in index order
+        parts = X.ordered_partitions_with_class_order(n) if kind == "m3o" else X.ordered_partitions(n)
     for matrix in mats:
         single = None
         if kind != "full4" or shard[1] == 0:
@@ -188,9 +193,11 @@ def run_shard(ctx, shard):
                               "n=%d matrix=%r DEX files (add order)=%r: %s" % (n, matrix, blocks, msg))
         if kind != "full4" or shard[1] == 0:
             acc.count("matrices")
+    acc.count("decoy_histories_run", C.DECOYS[0])
+    C.DECOYS[0] = 0
     if kind == "full4" and shard[1] == 0:
         acc.sample({"classes": 4, "matrix": "all pairs: all interactions", "dex_files_in_add_order": parts[-1]})
-    if kind == "m3" and shard[2] == 2:
+    if kind == "m3o" and shard[2] == 2:
         acc.sample({"classes": 3, "matrix": [list(r) for r in mats[-1]], "dex_files_in_add_order": parts[-1]})
     return acc
 
@@ -203,7 +210,7 @@ def replay(ctx, w):
 
 def finalize(ctx, acc):
     x = acc.extra
-    want = 75 + 64 * 13 + ((5 ** 6) * 13 + 4096 * 75 if ctx.thorough else 0)
+    want = 192 + 64 * 24 + ((5 ** 6) * 13 + 4096 * 75 if ctx.thorough else 0)
     if acc.traces != want or x.get("add_orders_run") != want:
         acc.harness_error("expected %d add histories, ran %d" % (want, acc.traces))
     for k in ("partitions_with_1_dex", "partitions_with_2_dex", "partitions_with_3_dex", "partitions_with_4_dex", "cross_dex_interactions"):
